@@ -248,7 +248,7 @@ theorem encode_basic_prefix (pfx s a : List Nat) (h : encode pfx s = some a) :
 
 /-! ### A-label branch -/
 
-theorem firstLoop_err (u16 : Bool) (ls : List (List Nat)) : (firstLoop u16 true ls).2 = true := by
+theorem firstLoop_err (ls : List (List Nat)) : (firstLoop true ls).2 = true := by
   induction ls with
   | nil => rfl
   | cons l ls ih => simp [firstLoop, ih]
@@ -260,29 +260,33 @@ theorem secondLoop_err (u16 : Bool) (ls : List (List Nat)) : (secondLoop u16 tru
     unfold secondLoop
     split <;> simp [ih]
 
-theorem alabelStep_undec (u16 err : Bool) (l : List Nat) (h : undecodableALabel l = true) :
-    (alabelStep u16 err l).2 = true := by
-  unfold undecodableALabel hasAce at h
-  simp only [Bool.and_eq_true, Option.isNone_iff_eq_none] at h
+theorem alabelStep_bad (l : List Nat) (h : badALabel l = true) : (alabelStep l).2 = true := by
+  unfold badALabel undecodableALabel asciiOnlyALabel hasAce at h
   unfold alabelStep
-  simp [h.1, h.2]
+  cases hp : acePrefix.isPrefixOf l with
+  | false => simp [hp] at h
+  | true =>
+    simp only [hp, Bool.true_and, if_true] at h ⊢
+    cases hd : decode (l.drop 4) with
+    | none => rfl
+    | some u => simpa [hd] using h
 
-theorem firstLoop_undec (u16 err : Bool) (ls : List (List Nat)) (h : ls.any undecodableALabel = true) :
-    (firstLoop u16 err ls).2 = true := by
+theorem firstLoop_bad (err : Bool) (ls : List (List Nat)) (h : ls.any badALabel = true) :
+    (firstLoop err ls).2 = true := by
   induction ls generalizing err with
   | nil => simp at h
   | cons l ls ih =>
     simp only [List.any_cons, Bool.or_eq_true] at h
     simp only [firstLoop]
     rcases h with h | h
-    · rw [alabelStep_undec u16 err l h]
+    · rw [alabelStep_bad l h]
       simp [firstLoop_err]
     · exact ih _ h
 
 theorem process_err_of_first (u16 toASCII : Bool) (s : List Nat)
-    (h : (firstLoop u16 false (splitDots s)).2 = true) : (processPunycode u16 toASCII s).2 = true := by
+    (h : (firstLoop false (splitDots s)).2 = true) : (processPunycode u16 toASCII s).2 = true := by
   unfold processPunycode
-  generalize firstLoop u16 false (splitDots s) = r at h
+  generalize firstLoop false (splitDots s) = r at h
   obtain ⟨ls, err⟩ := r
   simp only at h
   subst h
@@ -290,50 +294,8 @@ theorem process_err_of_first (u16 toASCII : Bool) (s : List Nat)
   · rfl
   · simp [secondLoop_err]
 
-theorem alabel_holds_partial (u16 toASCII : Bool) (s : List Nat)
-    (h : (splitDots s).any (fun l => undecodableALabel l || asciiOnlyALabel l) = true)
-    (hex : (splitDots s).any asciiOnlyALabel = false) :
-    (processPunycode u16 toASCII s).2 = true := by
-  apply process_err_of_first
-  apply firstLoop_undec
-  simp only [List.any_eq_true, List.any_eq_false, Bool.or_eq_true] at h hex ⊢
-  obtain ⟨l, hl, hor⟩ := h
-  rcases hor with hu | ha
-  · exact ⟨l, hl, hu⟩
-  · exact absurd ha (by simpa using hex l hl)
-
-/-- `xn--` label whose payload decodes to a non-empty ASCII-only string. -/
-def asciiOnlyNonemptyALabel (l : List Nat) : Bool :=
-  hasAce l && (match decode (l.drop 4) with | some u => isAscii u && decide (u.length > 0) | none => false)
-
-theorem firstLoop_ascii_u16 (err : Bool) (ls : List (List Nat)) (h : ls.any asciiOnlyNonemptyALabel = true) :
-    (firstLoop true err ls).2 = true := by
-  induction ls generalizing err with
-  | nil => simp at h
-  | cons l ls ih =>
-    cases err with
-    | true => exact firstLoop_err _ _
-    | false =>
-      simp only [List.any_cons, Bool.or_eq_true] at h
-      simp only [firstLoop]
-      rcases h with h | h
-      · unfold asciiOnlyNonemptyALabel hasAce at h
-        simp only [Bool.and_eq_true] at h
-        obtain ⟨hp, hd⟩ := h
-        split at hd
-        · rename_i u hu
-          simp only [Bool.and_eq_true, decide_eq_true_eq] at hd
-          have : (alabelStep true false l).2 = true := by
-            unfold alabelStep
-            simp [hp, hu, hd.1, hd.2]
-          rw [this]
-          simp [firstLoop_err]
-        · simp at hd
-      · exact ih _ h
-
-theorem alabel_ascii_rejected_u16 (toASCII : Bool) (s : List Nat)
-    (h : (splitDots s).any asciiOnlyNonemptyALabel = true) :
-    (processPunycode true toASCII s).2 = true :=
-  process_err_of_first _ _ _ (firstLoop_ascii_u16 _ _ h)
+theorem alabel_holds (u16 toASCII : Bool) (s : List Nat)
+    (h : (splitDots s).any badALabel = true) : (processPunycode u16 toASCII s).2 = true :=
+  process_err_of_first _ _ _ (firstLoop_bad _ _ h)
 
 end NetVerif.Proofs.Lemmas.Punycode
